@@ -17,7 +17,7 @@ from mcheck.gen import sigs as G
 
 ID = "C12"
 RULE = (
-    "all valid parameter lists of 0..3 (thorough 0..4; module/instance kinds always 0..4) parameters over {positional-only, "
+    "all valid parameter lists of 0..3 (thorough 0..4, and 0..5 for module functions / instance methods / async static methods; module/instance kinds always 0..4) parameters over {positional-only, "
     "positional-or-keyword, keyword-only, defaulted incl. None, *args, **kwargs} + 5..8-parameter long-name lists that "
     "wrap at 120 columns x kinds {function, coroutine, generator, instance/class/static/property/coroutine method} x class "
     "depth {0,1,2}; modules of 5 functions, all 31 non-empty traced subsets; state = one (module, subset) stub, "
@@ -48,6 +48,11 @@ def specs(tier: str) -> List[Tuple[str, int, Tuple[G.Param, ...], bool]]:
         for pl in extra:
             out.append(("function", 0, pl, False))
             out.append(("instance", 1, pl, False))
+    else:
+        for pl in [pl for pl in G.param_lists(5) if len(pl) == 5]:
+            out.append(("function", 0, pl, False))
+            out.append(("instance", 1, pl, False))
+            out.append(("costaticmethod", 2, pl, False))
     for depth in (1, 2):
         out.append(("property", depth, (), False))
     # long names: wrapping
@@ -687,7 +692,7 @@ def run(ctx: Ctx) -> Result:
     res = run_shards(ctx, shard, list(range(nshards)))
     for o in ("saw:StubIndexBuilder", "special:same-named-functions", "special:annotated-sources-x-strategies", "special:descriptor-subclasses", "special:non-identifier-dict-keys", "special:wrapped-coroutines-and-traced-properties", "special:interleaved-modules", "saw:wrapped-signature", "saw:posonly-separator", "saw:kwonly-separator", "saw:async"):
         res.obligations.setdefault(o, False)
-    res.bounds.update({"max_params": 4 if ctx.tier == "thorough" else "3 (+4 for function/instance)", "modules": len(gs), "functions_per_module": 5, "subsets": "all 31"})
+    res.bounds.update({"max_params": "4 (+5 for function, instance, async static)" if ctx.tier == "thorough" else "3 (+4 for function/instance)", "modules": len(gs), "functions_per_module": 5, "subsets": "all 31"})
     return res
 
 
